@@ -60,10 +60,54 @@ def table_engine(chk, quick):
     return rep
 
 
+def tracker_engine(chk, quick):
+    """Tracker level (R2): random histories with fast-moving and re-appearing objects under random constraint
+    tables; TLC validates every trace (no continuation beyond the limit for its epoch gap; the recorded assignment is
+    optimal over the pairs the table admits), and relates a run whose table no pair violates to the unconstrained run."""
+    import random
+    from checks import r2_common as r2
+    rnd = random.Random(chk.seed)
+    n = 6 if quick else 100
+    traces, binding = [], 0
+    for i in range(n):
+        gaps = sorted(rnd.sample(range(1, 4), rnd.choice((1, 2))))
+        table = ",".join(f"{g}:{rnd.choice((0.2, 0.4, 0.7, 1.0))}" for g in gaps)
+        kind = ("sort", "visual", "batchsort")[i % 3]
+        t = r2.record(chk, f"c20-r2-{i}", kind, chk.seed * 1000 + 500 + i, steps=150 if quick else 300, shards=1 + i % 3,
+                      metric="iou" if i % 2 == 0 else "maha", max_idle=3, objects=4, spread=(60, 120)[i % 2],
+                      constraints=table, extra=["--jump", "1"])
+        st = r2.trace_stats(t)
+        chk.cov["evaluations"] += st["predicts"]
+        import json as _j
+        ev = [_j.loads(l) for l in open(t)]
+        cons = ev[0]["cons"]
+        def lim(gap):
+            a = [l for g, l in cons if g >= gap]
+            return a[0] if a else 0
+        b = sum(1 for e in ev if e["ev"] == "predict" for i2, row in enumerate(e["c"]) for k, gap, d in row
+                if lim(gap) and d > lim(gap) and any(k == kk for kk, _ in e["w"][i2]))
+        binding += b
+        traces.append(t)
+    chk.cov["distinct_nontrivial"] += binding
+    chk.cov["gated_pairs_excluded_by_a_binding_constraint"] = binding
+    r2.validate_all(chk, traces, "C20")
+    # non-binding table vs no table: identical records and ids
+    for i in range(2 if quick else 20):
+        seed = chk.seed * 1000 + 900 + i
+        kind = ("sort", "visual")[i % 2]
+        a = r2.record(chk, f"c20-free-{i}", kind, seed, steps=150, shards=2, max_idle=2, objects=4, spread=90, extra=["--no-lifecycle", "1"])
+        b = r2.record(chk, f"c20-loose-{i}", kind, seed, steps=150, shards=2, max_idle=2, objects=4, spread=90,
+                      constraints="1:1000.0,3:1000.0", extra=["--no-lifecycle", "1"])
+        ok, rej = r2.pairing(chk, f"c20-pair-{i}", a, b, "equal")
+        chk.cov["evaluations"] += 1
+        if not ok:
+            chk.violation("c20:non-binding-table-changes-results", {"engine": "pairing", "a": str(a), "b": str(b), "rejected": rej[:2000]})
+
+
 def run(chk):
     quick = chk.tier == "quick"
     table_engine(chk, quick)
-    # (tracker-level engine goes here, before finish)
+    tracker_engine(chk, quick)
     chk.finish(RULE, exhaustive=True)
 
 
